@@ -94,8 +94,8 @@ pub fn main_campaign() -> SimCampaign {
             avoid: avoid_all(),
             ..Flags::default()
         },
-        quick: 10_000,
-        thorough: 250_000,
+        quick: 25000,
+        thorough: 500000,
         nontrivial,
         probes: vec![],
         shape: Some(witness_shape),
